@@ -572,3 +572,113 @@ def replay_line_time(model):
     want = dt.datetime(2020, 2, 29, 23, 59, 59, 999000)
     return {"confirmed": got != want, "input": {"year": 2020, "day_of_year": 60, "milliseconds": 86399999},
             "observed": str(got), "expected": str(want)}
+
+
+# ---------------------------------------------------------------------------------------------------
+# C12: sort discipline of the result tree
+# ---------------------------------------------------------------------------------------------------
+SCALAR_SORTS = {"int", "float", "bool", "str", "complex", "datetime", "timedelta", "dt64", "td64", "date"}
+
+
+def _scalar_kind(e):
+    """sort of a dump entry if it is a plain scalar, else None"""
+    if "sym" in e:
+        return e["sym"] if e["sym"] in SCALAR_SORTS else None
+    if "complex" in e:
+        return "complex"
+    if "py" in e:
+        r = e["py"]
+        if r in ("True", "False"):
+            return "bool"
+        if r == "None":
+            return None
+        if r[:1] in "'\"":
+            return "str"
+        if r.startswith("datetime.") or r.startswith("dtype("):
+            return "datetime" if r.startswith("datetime.") else None
+        try:
+            v = eval(r, {"nan": float("nan"), "inf": float("inf")})  # repr of an int / float / complex
+        except Exception:
+            return None
+        return type(v).__name__ if isinstance(v, (int, float, complex)) else None
+    return None
+
+
+def _data_shape(e, depth=0):
+    """(nesting depth, set of element sorts, problems) of a variable's data entry"""
+    if "list" in e or "tuple" in e:
+        items = e.get("list", e.get("tuple"))
+        d, kinds, probs = 0, set(), []
+        for x in items:
+            dd, kk, pp = _data_shape(x, depth + 1)
+            d = max(d, dd)
+            kinds |= kk
+            probs += pp
+        return d + 1, kinds, probs
+    if "seq" in e or "nd" in e:
+        if "list" in e and "nd" in e:
+            return _data_shape({"list": e["list"]}, depth)
+        dd, kk, pp = _data_shape(e["elem"], depth + 1)
+        return dd + 1, kk, pp
+    if "nd0" in e:
+        return _data_shape(e["elem"], depth)
+    if "np" in e:
+        return len(e.get("shape", [])), {e["np"]}, []
+    if "Array" in e:
+        return 2, {"backend:" + e["Array"]["dtype"].get("py", "?")}, []
+    k = _scalar_kind(e)
+    if k is None:
+        return 0, set(), [str(e)[:160]]
+    return 0, {k}, []
+
+
+def _attr_ok(e):
+    if "list" in e or "tuple" in e:
+        return all(_attr_ok(x) for x in e.get("list", e.get("tuple")))
+    return _scalar_kind(e) is not None
+
+
+def an_sorts(sub, payload, unit, tag, res):
+    if res.outcome != "return":
+        return
+    prop = payload["prop"]
+    fn = _fn(unit)
+    dump = res.extra["dump"]
+    pid = f"{prop}/{unit}"
+    for loc, e in dump.items():
+        if loc.endswith("#data"):
+            var = loc[: -len("#data")]
+            depth, kinds, probs = _data_shape(e)
+            dims = dump.get(var + "#dims", {})
+            ndims = len(dims.get("list", dims.get("tuple", []))) if isinstance(dims, dict) else None
+            numeric = {"int", "float", "bool"}
+            homogeneous = len(kinds) <= 1 or kinds <= numeric or kinds <= {"int", "float", "bool", "complex"}
+            ok = not probs and homogeneous and (ndims is None or depth == ndims)
+            sub.decided(f"{pid}{var}/well-typed-data", ok, function=fn, kind="post", backend="sort-check", replay=replay_sorts,
+                        detail={"path": tag, "element_sorts": sorted(kinds), "nesting": depth, "dims": ndims, "opaque": probs[:2]})
+        elif "@" in loc.rsplit("/", 1)[-1]:
+            sub.decided(f"{pid}{loc}/plain-attribute", _attr_ok(e), function=fn, kind="post", backend="sort-check",
+                        detail={"path": tag, "value": str(e)[:200]})
+
+
+def replay_sorts(model):
+    """native replay: a synthetic level 1.1 product opened by the real code; any object-dtype variable?"""
+    import fsspec
+    import numpy as np
+
+    from ceos_alos2.sar_image import open_image
+    from ceos_alos2.xarray import to_dataset
+    from native import synth
+
+    fs = fsspec.filesystem("memory")
+    root = "/c12replay"
+    data = (np.arange(6, dtype="float32").reshape(2, 3) + 1j).astype("complex64")
+    img = synth.image_file(data, level="1.1")
+    fs.pipe(f"{root}/IMG-HH-ALOS2000000000-200229-UBSR1.1__D", bytes(img))
+    mapper = fsspec.get_mapper(f"memory://{root}")
+    group = open_image(mapper, "IMG-HH-ALOS2000000000-200229-UBSR1.1__D", use_cache=False, records_per_chunk=2)
+    ds = to_dataset(group)
+    bad = {name: str(v.dtype) for name, v in ds.variables.items() if v.dtype == object}
+    return {"confirmed": bool(bad), "witness_class": "level-1.1 nested sub-structs",
+            "input": "synthetic level 1.1 image, 2 lines x 3 pixels", "observed": bad,
+            "expected": "no variable of dtype object"}
